@@ -86,3 +86,31 @@ CLAIMED['C01'] = dict(
          'recomputation oracle checks the per-hop sums. Ground-truth oracle from the simulator for all protocols incl. TCP.',
     note=STRAT_NOTE + ' Stated at the Network interface (what Channel hands to / receives from the strategy); the byte-level link (a response packet quoting probe p is genuine for p) belongs to C02.',
     technique='Coq proof (ghost-history invariant by induction over loop iterations) + trace replay of extracted model vs implementation + simulator ground-truth oracle')
+
+CLAIMED['C11'] = dict(
+    text='Coq theorems (Props/C11.v) over the output log of Channel::connect + send_probe, for every accepted configuration, packet size 28/48..1024, tos, pattern, '
+         'ttl, sequence, identifier, ports and addresses: ICMP and UDP (classic, Paris, Dublin) over IPv4 put exactly one datagram on the raw socket that an independent '
+         'RFC 791/792/768 bit-offset decoder reads as version 4 / IHL 5, configured tos, DF set, total length = byte count (= packet size for ICMP, classic, Dublin), '
+         'ttl, protocol, source, target, echo request with trace id + sequence / UDP ports, consistent UDP length, RFC 1071-valid checksum, pattern payload; Paris: checksum '
+         'field = sequence and still valid; Dublin/IPv4: identification = sequence; IPv6: set_unicast_hops_v6 = ttl precedes the send, ICMPv6 / UDP valid under the RFC 8200 '
+         'pseudo-header, Dublin payload = "trippy" ++ pattern of length sequence - initial_sequence; unprivileged UDP and TCP: the exact bind / ttl / tos / send_to|connect list; '
+         'out-of-range sizes give InvalidPacketSize and send nothing; no cell faults for ANY packet size and ANY injected socket error; ErrorMapper as written. '
+         'Two defects repaired (zero UDP checksum over IPv6; panic on the 257th pending TCP probe), one recorded (Paris/IPv6 sequence 0).',
+    note='trusted: Coq kernel; hand-written model (Net/Wire.v, Sock.v, Dispatch4.v, Dispatch6.v, ChannelSend.v) tied to the code by differential execution of the real '
+         'Channel over a recording Socket; no axioms. Ipv4ByteOrder::Host is proved but not tied to code (variant absent on Linux). The kernel-written IPv6 header and the OS '
+         'socket layer are outside the model.',
+    technique='Coq proof (closed forms of the builders by symbolic evaluation, RFC bit-slice decoder lemmas, C13 checksum theorems) + differential testing of the extracted model '
+              '+ model-free RFC decoder oracle')
+
+CLAIMED['C12'] = dict(
+    text='Coq theorems: for every header-field accessor pair of trippy-packet (88 pairs, 17 packet types) the model getter equals the RFC '
+         'big-endian bit slice (offset, width) and the model setter rewrites exactly that slice with its argument truncated to the field width, '
+         'without fault, for every byte buffer of at least the minimum size and every value of the setter\'s Rust argument type; generic laws of '
+         'the slice (round trip, frame bit-by-bit and field-by-field, length, byte order) for all buffers; new/new_view succeed iff length >= minimum '
+         '(19 types). Ipv6Packet::set_flow_label is modelled as fixed (argument masked to 20 bits). '
+         'Model tied to the code by differential execution; model-free RFC bit-slice oracle in the harness.',
+    note='trusted: Coq kernel (incl. vm_compute for byte-local sweeps of at most 2^14 cases), hand-written model (Packet/Fields.v) + correspondence harness, '
+         'the (offset, width) table read off the RFCs (kept twice, in Props/C12.v and in harness m_c12.rs); no axioms. Not proved: the Rust code itself. '
+         'TCP reserved/flags are checked against the RFC 3540 split (3 + 9 bits) the code implements, not the RFC 9293 one (4 + 8); '
+         'icmpv6 DestinationUnreachable next_hop_mtu has no RFC counterpart.',
+    technique='Coq proof (bit-list specification, locality + arithmetic bridge, finite sweeps) + differential testing of extracted model vs implementation + RFC bit-slice oracle')
